@@ -35,8 +35,9 @@ const boundA = 1 << 20
 
 var boundB = map[string]uint64{"png": 6000, "auto": 6000, "jpeg": 32, "webp": 32, "icc": 64}
 
+// time budget: grows with the input size, not with numbers written in the input
 func timeBudget(n int) time.Duration {
-	return 10*time.Second + time.Duration(n>>20)*time.Second
+	return 4*time.Second + time.Duration(n>>20)*time.Second
 }
 
 type result struct {
@@ -111,6 +112,12 @@ func check(c Case) (kind, what string, r result) {
 	ev.Journal("hostile", c)
 	r = exercise(c)
 	k := family(c) + "/"
+	if r.hung {
+		// a slow machine is not a hang: measure once more before calling it one
+		if r2 := exercise(c); !r2.hung {
+			r = r2
+		}
+	}
 	switch {
 	case r.hung:
 		return k + "hang", fmt.Sprintf("%s on %d input bytes did not return within %v (stage %s) (%s)", c.Target, len(c.Data), timeBudget(len(c.Data)), r.stage, c.Desc), r
@@ -311,6 +318,36 @@ func TestC09(t *testing.T) {
 		}
 	}
 	ev.Class("field-matrix", nMatrix)
+	// (a') pairs of neighbouring fields (two cooperating values in one structure, e.g. a count and a record size):
+	// every ordered pair of fields whose offsets are within 32 bytes x extreme values
+	var nPairs int64
+	for _, sd := range all {
+		m := withEmbeddedICC(sd)
+		if len(sd.Data) > 40000 && !ev.Thorough() {
+			continue
+		}
+		for fi, f := range m.Fields {
+			for gi, g := range m.Fields {
+				if gi <= fi || g.Off-f.Off > 32 || f.Off-g.Off > 32 || f.Kind == "type" || g.Kind == "type" {
+					continue
+				}
+				ext := func(x build.Field) []uint64 {
+					max := uint64(1)<<(8*uint(x.Len)) - 1
+					return []uint64{0, 1, max, max/2 + 1, uint64(len(sd.Data)-x.Off-x.Len) & max, 12}
+				}
+				for _, v1 := range ext(f) {
+					for _, v2 := range ext(g) {
+						d := mut.Apply(sd.Data, m, []mut.Op{{Kind: "set", Field: fi, Value: v1}, {Kind: "set", Field: gi, Value: v2}}, nil)
+						for _, target := range targetsFor(sd.Kind) {
+							rc.run(Case{Desc: fmt.Sprintf("%s: %s@%d=%#x and %s@%d=%#x", sd.Name, f.Name, f.Off, v1, g.Name, g.Off, v2), Target: target, Data: d}, true)
+							nPairs++
+						}
+					}
+				}
+			}
+		}
+	}
+	ev.Class("field-pairs", nPairs)
 	// (c) truncations
 	var nTrunc int64
 	for _, sd := range all {
